@@ -34,23 +34,56 @@ RULE = ("cases = schedules from one PRNG (VERIF_SEED): 2-4 nodes in a full mesh 
 
 # ------------------------------------------------------------------ generator
 
-def gen_schedule(rng, nev=None):
+SUBS = [[["w"], ["c"]], [["w"], ["a"]], [["c"]], [["a"]], [["w"]], [["w"], ["w"], ["c"]]]
+
+
+def gen_schedule(rng, nev=None, typ=None):
+    typ = typ or rng.choice(["gcounter", "gcounter", "gcounter", "lww", "lww", "aworset"])
     n = rng.randint(2, 4)
     self_in = rng.random() < 0.4
     dead = rng.random() < 0.2
+    elems = [1, 2]
     evs = []
     open_ = [False] * n
-    nev = nev if nev is not None else rng.randint(6, 34)
+    nev = nev if nev is not None else rng.randint(6, 30)
     pw, pt = rng.choice([(0.35, 0.25), (0.25, 0.4), (0.45, 0.2)])
+    gates = 0
+    external = False
+
+    def wr(i):
+        if typ == "gcounter":
+            return ["w", i, rng.randint(1, 5)]
+        return ["w", i, rng.choice([1, 1, 2]), rng.choice(elems)]
+
+    def ext():
+        if typ == "gcounter":
+            return [[100 + rng.randint(0, 2), rng.randint(1, 4)]]
+        return [[rng.choice([1, 2]), rng.choice(elems + [3])] for _ in range(rng.randint(1, 2))]
+
+    def sub(i):
+        out = []
+        for e in rng.choice(SUBS):
+            if e[0] == "w":
+                out.append(wr(i)); open_[i] = True
+            else:
+                out.append([e[0], i]); open_[i] = False
+        return out
+
     for _ in range(nev):
         i = rng.randrange(n)
         x = rng.random()
-        if x < pw:
-            evs.append(["w", i, rng.randint(1, 5)]); open_[i] = True
-        elif x < pw + pt:
+        if gates < 2 and x < 0.07:
+            gates += 1
+            if rng.random() < 0.55:
+                evs.append(["gm", i, ext(), sub(i)]); external = True
+            else:
+                evs.append(["gt", i, sub(i)])
+        elif x < 0.07 + pw:
+            evs.append(wr(i)); open_[i] = True
+        elif x < 0.07 + pw + pt:
             evs.append(["t", rng.randrange(n)])
-        elif x < pw + pt + 0.08:
-            evs.append(["r", i, [[100 + rng.randint(0, 2), rng.randint(1, 4)]]])
+        elif x < 0.07 + pw + pt + 0.07:
+            evs.append(["r", i, ext()]); external = True
         else:
             if open_[i] or rng.random() < 0.15:
                 evs.append(["a", i] if rng.random() < 0.4 else ["c", i]); open_[i] = False
@@ -64,10 +97,14 @@ def gen_schedule(rng, nev=None):
         order = list(range(n)); rng.shuffle(order)
         for i in order:
             evs.append(["t", i])
-    return {"n": n, "self_in_peers": self_in, "dead_peer": dead, "events": evs, "finale_from": fin, "kind": "schedule"}
+    # all stable states must be equivalent now (sets: only if nothing was injected from outside the mesh,
+    # an external value is never re-broadcast; gcounter: compared on the mesh's own entries)
+    if typ == "gcounter" or (typ == "lww" and not external):
+        evs.append(["fin"])
+    return {"type": typ, "n": n, "self_in_peers": self_in, "dead_peer": dead, "events": evs, "finale_from": fin, "kind": "schedule"}
 
 
-# ------------------------------------------------------------------ implementation-side oracle (GCounter payload)
+# ------------------------------------------------------------------ implementation-side oracle
 
 def emax(a, b):
     out = dict(a)
@@ -77,62 +114,84 @@ def emax(a, b):
     return out
 
 
+def parts(ev):
+    """a composite event as the sequence of simple steps the real (atomic-merge) code performs"""
+    k = ev[0]
+    if k == "gm":
+        return [["r", ev[1], ev[2]]] + ev[3]
+    if k == "gt":
+        return [["t*", ev[1]]] + ev[2]
+    return [ev]
+
+
 def oracle(case, res):
     fails = []
     if res.get("err"):
         return [("crdt-error", "harness/Go error: %s" % res["err"][:200])]
+    typ = case.get("type", "gcounter")
+    def add(sig, what):
+        if sig not in {s for s, _ in fails}:
+            fails.append((sig, what))
+    # payload-level oracle computed by the driver on the real states (gcounter, lww)
+    for f in res.get("pfails", []):
+        add(f["sig"], f["what"])
     n = case["n"]
     committed = [0] * n
     inflight = [0] * n
     open_ = [False] * n
     recvd = [dict() for _ in range(n)]
     prev = [{"v": 0, "s": 0, "h": False, "need": 0, "ve": {}, "se": {}} for _ in range(n)]
-    def add(sig, what):
-        if sig not in {s for s, _ in fails}:
-            fails.append((sig, what))
     for t, (ev, snaps) in enumerate(zip(case["events"], res["snaps"])):
-        k, i = ev[0], ev[1]
-        if k == "w":
-            inflight[i] += ev[2]; open_[i] = True
-        elif k == "c":
-            committed[i] += inflight[i]; inflight[i] = 0; open_[i] = False
-        elif k == "a":
-            inflight[i] = 0; open_[i] = False
-        elif k == "t":
-            if prev[i]["need"] > 0:
-                payload = prev[i]["se"]
-                for j in range(n):
-                    if j != i:
-                        recvd[j] = emax(recvd[j], payload)
-                        recvd[i] = emax(recvd[i], prev[j]["se"])
-        elif k == "r":
-            recvd[i] = emax(recvd[i], {str(a): b for a, b in ev[2]})
-            rep = res["replies"][t] or {}
-            # inflight_never_broadcast on the reply: node i's own entry is its committed count
-            if rep.get(str(i), 0) != committed[i]:
-                add("reply-not-committed-state", "event %d: ReceiveValue reply of node %d carries own entry %s, committed total is %d" % (t, i, rep.get(str(i), 0), committed[i]))
+        ticked = None
+        for pe in parts(ev):
+            k = pe[0]
+            if k == "fin":
+                continue
+            i = pe[1]
+            if k == "w":
+                inflight[i] += pe[2] if typ == "gcounter" else 0; open_[i] = True
+            elif k == "c":
+                committed[i] += inflight[i]; inflight[i] = 0; open_[i] = False
+            elif k == "a":
+                inflight[i] = 0; open_[i] = False
+            elif k in ("t", "t*"):
+                if typ == "gcounter" and prev[i]["need"] > 0:
+                    for j in range(n):
+                        if j != i:
+                            recvd[j] = emax(recvd[j], prev[i]["se"])
+                            recvd[i] = emax(recvd[i], prev[j]["se"])
+                if k == "t":
+                    ticked = (i, committed[i])
+            elif k == "r" and typ == "gcounter":
+                recvd[i] = emax(recvd[i], {str(a): b for a, b in pe[2]})
+                rep = res["replies"][t] if ev[0] == "r" else None
+                if rep is not None and rep.get(str(i), 0) != committed[i]:
+                    add("reply-not-committed-state", "event %d: ReceiveValue reply of node %d carries own entry %s, committed total is %d" % (t, i, rep.get(str(i), 0), committed[i]))
         for j in range(n):
             s = snaps[j]
+            if s["h"] != open_[j]:
+                add("section-flag", "event %d %s: node %d hasOldValue=%s, section open=%s" % (t, ev, j, s["h"], open_[j]))
+            if typ != "gcounter":
+                continue
             own = s["ve"].get(str(j), 0)
             if s["se"].get(str(j), 0) != committed[j]:
                 add("stable-not-committed-state", "event %d %s: stable value of node %d has own entry %d, committed total is %d" % (t, ev, j, s["se"].get(str(j), 0), committed[j]))
             if own != committed[j] + inflight[j]:
                 sig = "aborted-update-survives" if own > committed[j] + inflight[j] else "own-update-lost"
                 add(sig, "event %d %s: node %d holds own entry %d, committed %d + in flight %d" % (t, ev, j, own, committed[j], inflight[j]))
-            if s["h"] != open_[j]:
-                add("section-flag", "event %d %s: node %d hasOldValue=%s, section open=%s" % (t, ev, j, s["h"], open_[j]))
             for i2 in range(n):
                 if i2 != j and s["ve"].get(str(i2), 0) > committed[i2]:
                     add("inflight-broadcast", "event %d %s: node %d knows %d increments of node %d, only %d are committed" % (t, ev, j, s["ve"].get(str(i2), 0), i2, committed[i2]))
             for w, c in recvd[j].items():
                 if s["ve"].get(w, 0) < c:
                     add("received-state-lost", "event %d %s: node %d received %s:%d earlier and now holds %d" % (t, ev, j, w, c, s["ve"].get(w, 0)))
-        if k == "t":
+        if ticked and typ == "gcounter":
+            i, ci = ticked
             for j in range(n):
-                if snaps[j]["ve"].get(str(i), 0) < committed[i]:
-                    add("owed-broadcast-consumed", "event %d: after a broadcast round of node %d, node %d holds %d of its %d committed increments" % (t, i, j, snaps[j]["ve"].get(str(i), 0), committed[i]))
+                if snaps[j]["ve"].get(str(i), 0) < ci:
+                    add("owed-broadcast-consumed", "event %d: after a broadcast round of node %d, node %d holds %d of its %d committed increments" % (t, i, j, snaps[j]["ve"].get(str(i), 0), ci))
         prev = snaps
-    if len(res["snaps"]) == len(case["events"]) and case.get("finale_from") is not None and res["snaps"]:
+    if typ == "gcounter" and len(res["snaps"]) == len(case["events"]) and case.get("finale_from") is not None and res["snaps"]:
         last = res["snaps"][-1]
         for j in range(n):
             for i in range(n):
@@ -144,53 +203,92 @@ def oracle(case, res):
 def nontrivial(case):
     open_ = [False] * case["n"]
     for ev in case["events"]:
-        k, i = ev[0], ev[1]
-        if k == "w":
-            open_[i] = True
-        elif k in ("c", "a"):
-            open_[i] = False
-        elif k == "t" and any(open_):
+        if ev[0] in ("gm", "gt"):
             return True
-        elif k == "r" and open_[i]:
-            return True
+        for pe in parts(ev):
+            k = pe[0]
+            if k == "fin":
+                continue
+            i = pe[1]
+            if k == "w":
+                open_[i] = True
+            elif k in ("c", "a"):
+                open_[i] = False
+            elif k == "t" and any(open_):
+                return True
+            elif k == "r" and open_[i]:
+                return True
     return False
 
 
 # ------------------------------------------------------------------ Coq terms
 
-def coq_obs(s):
-    return "(%s, %s, %s, %d%%nat)" % (vlib.coq_Z(s["v"]), vlib.coq_Z(s["s"]), vlib.coq_bool(s["h"]), s["need"])
+def coq_zl(xs):
+    return vlib.coq_list([vlib.coq_Z(x) for x in xs])
+
+
+def coq_obs(typ, s):
+    rd = (lambda v: coq_zl([v])) if typ == "gcounter" else coq_zl
+    return "(%s, %s, %s, %d%%nat)" % (rd(s["v"]), rd(s["s"]), vlib.coq_bool(s["h"]), s["need"])
 
 
 def to_coq(case, res):
+    typ = case.get("type", "gcounter")
     n = case["n"]
     evs = []
     prev_need = [0] * n
-    for ev, snaps in zip(case["events"], res["snaps"]):
-        k, i = ev[0], ev[1]
+    for idx, (ev, snaps) in enumerate(zip(case["events"], res["snaps"])):
+        if ev[0] == "fin":
+            continue
+        t0 = list(res["t0"][idx] or [])
         seq = []
-        if k == "w":
-            seq.append("EWrite %s %s" % (vlib.coq_Z(i), vlib.coq_Z(ev[2])))
-        elif k == "c":
-            seq.append("ECommit %s" % vlib.coq_Z(i))
-        elif k == "a":
-            seq.append("EAbort %s" % vlib.coq_Z(i))
-        elif k == "t":
+
+        def ext_value(spec):
+            if typ == "gcounter":
+                return vlib.coq_list(["(%s, %s)" % (vlib.coq_Z(a), vlib.coq_Z(b)) for a, b in spec])
+            v = "aw_init" if typ == "aworset" else "lww_init"
+            for c, e in spec:
+                if typ == "aworset":
+                    v = "(aw_write 100 (%s, %s) %s)" % (vlib.coq_Z(c), vlib.coq_Z(e), v)
+                else:
+                    v = "(lww_write 100 (%s, %s, %s) %s)" % (vlib.coq_Z(c), vlib.coq_Z(e), vlib.coq_Z(t0.pop(0)), v)
+            return v
+
+        def simple(pe):
+            k, i = pe[0], pe[1]
+            if k == "w":
+                if typ == "gcounter":
+                    return "EWrite %s %s" % (vlib.coq_Z(i), vlib.coq_Z(pe[2]))
+                if typ == "aworset":
+                    return "EWrite %s (%s, %s)" % (vlib.coq_Z(i), vlib.coq_Z(pe[2]), vlib.coq_Z(pe[3]))
+                return "EWrite %s (%s, %s, %s)" % (vlib.coq_Z(i), vlib.coq_Z(pe[2]), vlib.coq_Z(pe[3]), vlib.coq_Z(t0.pop(0)))
+            if k == "c":
+                return "ECommit %s" % vlib.coq_Z(i)
+            return "EAbort %s" % vlib.coq_Z(i)
+
+        k, i = ev[0], ev[1]
+        if k in ("w", "c", "a"):
+            seq.append(simple(ev))
+        elif k in ("t", "gt"):
             rs = [j for j in range(n) if j != i]
-            seq.append("ETick %s %s" % (vlib.coq_Z(i), vlib.coq_list([vlib.coq_Z(j) for j in rs])))
+            seq.append("ETick %s %s" % (vlib.coq_Z(i), coq_zl(rs)))
+            if k == "gt":
+                seq += [simple(pe) for pe in ev[2]]
             if prev_need[i] > 0:
                 for j in rs:
                     seq.append("EMerge %s" % vlib.coq_Z(j))
                     seq.append("EMerge %s" % vlib.coq_Z(i))
-        elif k == "r":
-            v = vlib.coq_list(["(%s, %s)" % (vlib.coq_Z(a), vlib.coq_Z(b)) for a, b in ev[2]])
-            seq.append("ERecv %s %s" % (vlib.coq_Z(i), v))
+        elif k in ("r", "gm"):
+            seq.append("ERecv %s %s" % (vlib.coq_Z(i), ext_value(ev[2])))
             seq.append("EMerge %s" % vlib.coq_Z(i))
+            if k == "gm":
+                seq += [simple(pe) for pe in ev[3]]
         for e in seq[:-1]:
             evs.append("(%s, None)" % e)
-        evs.append("(%s, Some %s)" % (seq[-1], vlib.coq_list([coq_obs(s) for s in snaps])))
+        evs.append("(%s, Some %s)" % (seq[-1], vlib.coq_list([coq_obs(typ, s) for s in snaps])))
         prev_need = [s["need"] for s in snaps]
-    return "gcr_check %d%%nat %s %s %s" % (n, vlib.coq_bool(case["self_in_peers"]), vlib.coq_bool(case.get("dead_peer", False)), vlib.coq_list(evs))
+    fn = {"gcounter": "gcr_check", "aworset": "awr_check", "lww": "lwwr_check"}[typ]
+    return "%s %d%%nat %s %s %s" % (fn, n, vlib.coq_bool(case["self_in_peers"]), vlib.coq_bool(case.get("dead_peer", False)), vlib.coq_list(evs))
 
 
 # ------------------------------------------------------------------ driver
@@ -203,6 +301,7 @@ def corpus():
             if f.endswith(".json"):
                 c = json.load(open(os.path.join(d, f)))
                 c["kind"] = c.get("kind", "corpus")
+                c.setdefault("type", "gcounter")
                 out.append(c)
     return out
 
@@ -211,9 +310,13 @@ def strip(c):
     return {k: v for k, v in c.items() if not k.startswith("_")}
 
 
+def snap_brief(typ, sn):
+    return [(s["v"], s["s"], s["h"], s["need"]) for s in sn]
+
+
 def run(ctx):
     rng = ctx.rng
-    n = 150 if ctx.tier == "quick" else 3000
+    n = 120 if ctx.tier == "quick" else 3000
     if ctx.replay:
         cases = [json.load(open(ctx.replay))["case"]]
     else:
@@ -229,47 +332,58 @@ def run(ctx):
             break
         rc, res, err = vlib.run_jsonl("c13", [strip(c) for c in cases if c["id"] not in byid], timeout=1500)
         byid.update({r["id"]: r for r in res})
-    if rc != 0 or len(byid) != len(cases):
+    if len(byid) != len(cases):
         ctx.breaks.append({"what": "harness c13 failed (rc=%d, %d/%d results)" % (rc, len(byid), len(cases)), "detail": err[-2000:]})
         return
-    dist = {"events": {}, "n": {}, "self_in_peers": 0, "dead_peer": 0, "tick_in_section": 0, "recv_in_section_then_abort": 0}
+    dist = {"events": {}, "n": {}, "type": {}, "self_in_peers": 0, "dead_peer": 0, "tick_or_receive_in_section_or_gated": 0,
+            "gated_merge_blocked_local_section": 0}
     for c in cases:
         r = byid[c["id"]]
         c["_res"] = r
-        ctx.add_case(json.dumps([c["n"], c["self_in_peers"], c.get("dead_peer", False), c["events"]]), nontrivial(c))
+        ctx.add_case(json.dumps([c.get("type"), c["n"], c["self_in_peers"], c.get("dead_peer", False), c["events"]]), nontrivial(c))
         for ev in c["events"]:
             dist["events"][ev[0]] = dist["events"].get(ev[0], 0) + 1
         dist["n"][str(c["n"])] = dist["n"].get(str(c["n"]), 0) + 1
+        dist["type"][c.get("type", "gcounter")] = dist["type"].get(c.get("type", "gcounter"), 0) + 1
         dist["self_in_peers"] += int(c["self_in_peers"]); dist["dead_peer"] += int(c.get("dead_peer", False))
-        dist["tick_in_section"] += int(nontrivial(c))
+        dist["tick_or_receive_in_section_or_gated"] += int(nontrivial(c))
+        dist["gated_merge_blocked_local_section"] += sum(1 for b in (r.get("blocked") or []) if b)
         for sig, what in oracle(c, r):
-            ctx.failures.append({"signature": sig, "what": what, "case": strip(c), "obs": {"snaps": r.get("snaps"), "replies": r.get("replies"), "err": r.get("err")}})
+            ctx.failures.append({"signature": sig, "what": what, "case": strip(c), "obs": {"snaps": r.get("snaps"), "replies": r.get("replies"), "pfails": r.get("pfails"), "err": r.get("err")}})
     ctx.extra["input_distribution"] = dist
-    ctx.samples = [{"n": c["n"], "self_in_peers": c["self_in_peers"], "events": c["events"][:10],
-                    "go_snapshots": [[(s["v"], s["s"], s["h"], s["need"]) for s in sn] for sn in c["_res"].get("snaps", [])[:10]]}
+    ctx.samples = [{"type": c.get("type"), "n": c["n"], "self_in_peers": c["self_in_peers"], "events": c["events"][:10],
+                    "go_snapshots": [snap_brief(c.get("type"), sn) for sn in c["_res"].get("snaps", [])[:10]]}
                    for c in cases[:5]]
     if ctx.coq_ok:
         good = [c for c in cases if not c["_res"].get("err") and len(c["_res"]["snaps"]) == len(c["events"])]
-        shard = 300
-        for s in range(0, len(good), shard):
-            part = good[s:s + shard]
+        # two shards evaluated by two coqc processes at the same time (quick); 300 per shard (thorough)
+        shard = max(1, (len(good) + 1) // 2) if ctx.tier == "quick" else 300
+        parts_ = [good[s:s + shard] for s in range(0, len(good), shard)]
+
+        def ev(ix):
+            part = parts_[ix]
             body = ("From PGV Require Import C13.Model.\n"
                     "Definition results : list bool :=\n [" + ";\n  ".join(to_coq(c, c["_res"]) for c in part) + "].\n"
                     "Definition M := Eval vm_compute in mismatches_from 0 results.\nPrint M.\n")
-            rc, out, err = vlib.coq_eval("C13_cases_%d" % s, body)
+            return vlib.coq_eval("C13_cases_%d" % ix, body)
+
+        from concurrent.futures import ThreadPoolExecutor
+        with ThreadPoolExecutor(max_workers=2) as ex:
+            outs = list(ex.map(ev, range(len(parts_))))
+        for part, (rc, out, err) in zip(parts_, outs):
             mm = vlib.parse_nat_list(out, "M") if rc == 0 else None
             if mm is None:
                 ctx.breaks.append({"what": "correspondence evaluation C13_cases did not compile", "detail": (out + err)[-2000:]})
                 break
             for k in mm:
                 c = part[k]
-                ctx.breaks.append({"what": "correspondence C13/Model.v vs distsys/resources/crdt.go differs on a schedule",
-                                   "case": strip(c), "impl": [[(s["v"], s["s"], s["h"], s["need"]) for s in sn] for sn in c["_res"]["snaps"]],
-                                   "model": "gcr_check = false (value/stable reads, hasOldValue or needBroadcastCount differ after some event)"})
+                ctx.breaks.append({"what": "correspondence C13/Model.v vs distsys/resources/crdt.go differs on a schedule (payload %s)" % c.get("type"),
+                                   "case": strip(c), "impl": [snap_brief(c.get("type"), sn) for sn in c["_res"]["snaps"]],
+                                   "model": "gcr_check/awr_check/lwwr_check = false (value/stable reads, hasOldValue or needBroadcastCount differ after some event)"})
     if ctx.replay:
         r = cases[0]["_res"]
         for ev, sn in zip(cases[0]["events"], r.get("snaps", [])):
-            print("replay:", ev, [(s["v"], s["s"], s["h"], s["need"], s["ve"]) for s in sn])
+            print("replay:", ev, [(s["v"], s["s"], s["h"], s["need"], s.get("ve")) for s in sn])
         print("replay: err", r.get("err"), "oracle", oracle(cases[0], r), "correspondence breaks", len(ctx.breaks))
 
 
